@@ -2,6 +2,7 @@ package pbar
 
 import (
 	"io"
+	"math"
 	"sync"
 
 	"github.com/vbauerster/mpb/v8"
@@ -92,6 +93,10 @@ func (b *bar) Done() {
 	}
 	if ib.IsRunning() {
 		ib.SetTotal(-1, true)
+		if ib.IsRunning() {
+			// a bar created with a total ignores SetTotal: it completes only by reaching its total
+			ib.SetCurrent(math.MaxInt64)
+		}
 		ib.Wait()
 	}
 }
